@@ -786,7 +786,40 @@ fn stream_e2e(ctx: &mut Ctx) {
     }
 }
 
+/// the one public function that hands a stored item back outside a response: the selected age attestation must be
+/// the held item, embedded bytes included
+fn stream_age_attestation(ctx: &mut Ctx) {
+    let n = ctx.budget(40, 2000);
+    for i in 0..n {
+        let mut rng = ctx.rng.clone();
+        let ages = [18i64, 21, 25, 65];
+        let mut vals = vec![];
+        for (k, a) in ages.iter().enumerate() {
+            let extras = rng.gen_range(0..2);
+            let v = gen_item_value(&mut rng, 10 + k as i64, &format!("age_over_{a}"), Value::Bool(*a <= 21), extras);
+            vals.push((format!("age_over_{a}"), v));
+        }
+        ctx.rng = rng;
+        let mut held: BTreeMap<String, Tag24<IssuerSignedItem>> = BTreeMap::new();
+        let mut inners: BTreeMap<String, Vec<u8>> = BTreeMap::new();
+        for (id, v) in &vals {
+            let inner = loose(ctx, v, 1, true);
+            if let Ok(t) = Tag24::<IssuerSignedItem>::from_bytes(inner.clone()) { held.insert(id.clone(), t); inners.insert(id.clone(), inner); }
+        }
+        let Ok(nem) = isomdl::definitions::helpers::NonEmptyMap::try_from(held) else { continue };
+        let req = format!("age_over_{}", [17, 18, 20, 21, 22, 30][i as usize % 6]);
+        let r = catch(|| isomdl::presentation::device::nearest_age_attestation(req.clone(), nem));
+        let Ok(Ok(Some(it))) = r else { ctx.count("age_attestation:none"); continue };
+        let Some(inner) = inners.get(&it.as_ref().element_identifier) else { continue };
+        let re = isomdl::cbor::to_vec(&it).unwrap_or_default();
+        ctx.count("age_attestation:returned");
+        ctx.case("age_attestation_item", json!({"request": req, "returned": it.as_ref().element_identifier}), arr(vec![uint(0), bytes(&it.inner_bytes), bytes(&re)]),
+            None, Some(("c10.spec_tag24", vec![Value::Bool(true), bytes(inner)])), true);
+    }
+}
+
 pub fn run(ctx: &mut Ctx) {
+    stream_age_attestation(ctx);
     stream_tag24(ctx);
     stream_malformed(ctx);
     stream_issuer_signed(ctx);
